@@ -102,6 +102,13 @@ pub struct ExPlan {
     /// labelled, a parser that refuses one of them is wrong - the library is not asked for its opinion.
     #[serde(default)]
     pub wellformed: bool,
+    /// Transient read errors: when the client's read cursor stands at byte `.0` of the terminal
+    /// stream, one read fails with EINTR (0) / EAGAIN as an error (1) / ETIMEDOUT (2); no byte is
+    /// lost and the connection stays usable. Two readings are accepted: the library carried on
+    /// without losing its place (the run equals the run without the error), or the exchange failed
+    /// there (valid prefix, one error, silence) - never a packet the terminal did not send.
+    #[serde(default)]
+    pub read_errs: Vec<(u32, u8)>,
     /// Label of the injected fault (for signatures / evidence).
     pub fault: String,
 }
@@ -122,6 +129,7 @@ impl ExPlan {
             paced_gaps_ms: vec![],
             malformed_replies: vec![],
             wellformed: false,
+            read_errs: vec![],
             fault: String::new(),
         }
     }
@@ -481,6 +489,20 @@ pub fn execute(plan: &ExPlan) -> ExRun {
     let term = ScriptTerm::new(plan, trec.clone());
     let (conn, handle) = sim_conn(0, plan.sched.clone(), Box::new(term), log.clone());
     let rec: seqs::Rec = Arc::new(Mutex::new(Recorded::default()));
+    if !plan.read_errs.is_empty() {
+        handle.set_read_errors(
+            plan.read_errs
+                .iter()
+                .map(|(off, k)| {
+                    (*off as u64, match k {
+                        0 => std::io::ErrorKind::Interrupted,
+                        1 => std::io::ErrorKind::WouldBlock,
+                        _ => std::io::ErrorKind::TimedOut,
+                    })
+                })
+                .collect(),
+        );
+    }
     if plan.epipe_at == Some(0) {
         handle.with_io(|io| io.fail_writes());
     }
@@ -558,6 +580,15 @@ pub fn run_and_judge(plan: &ExPlan, want_trace: bool) -> RunOut {
     }
     for off in long_stall_offsets(plan) {
         if plan.cut.map(|c| c.0 > off).unwrap_or(true) {
+            readings.push((false, Some(off)));
+            if ack_carries_data(plan) {
+                readings.push((true, Some(off)));
+            }
+        }
+    }
+    // a transient read error: carried on (the readings above), or the exchange failed at that offset
+    if let Some(off) = plan.read_errs.iter().map(|(o, _)| *o).min() {
+        if plan.cut.map(|c| c.0 > off).unwrap_or(true) && (off as usize) < plan.stream().len() - plan.tail.len() {
             readings.push((false, Some(off)));
             if ack_carries_data(plan) {
                 readings.push((true, Some(off)));
